@@ -524,6 +524,17 @@ class SymCtx:
                 ax.append(z3.Implies(atom < a2, X < X2))
                 ax.append(z3.Implies(atom > a2, X > X2))
                 ax.append(z3.Implies(atom == a2, X == X2))
+            # additive closure on ground instances: a_i + a_j = a_k  =>  X_i X_j = X_k  (and with -a_k)
+            if len(self.atom_list) <= 10:
+                L = self.atom_list
+                for i in range(len(L)):
+                    Xi, Yi, ai = L[i]
+                    ax.append(z3.Implies(ai + atom == 0, Xi * X == 1))
+                    for j in range(i, len(L)):
+                        Xj, Yj, aj = L[j]
+                        ax.append(z3.Implies(ai + aj == atom, Xi * Xj == X))
+                        ax.append(z3.Implies(ai + atom == aj, Xi * X == Xj))
+                        ax.append(z3.Implies(aj + atom == ai, Xj * X == Xi))
         self.atom_list.append((X, Y, atom))
         if z3.is_rational_value(atom):
             # numeric constant: rigorous rational enclosure of exp(c) from the Taylor series with remainder
@@ -534,6 +545,16 @@ class SymCtx:
         for a in ax:
             self.add_hyp(a)
         return X, Y
+
+    def log_of_atom(self, t):
+        """log(X) = a when X is exactly the atom standing for exp(a) (or exp(-a))."""
+        tid = t.get_id()
+        for (X, Y, atom) in self.atom_list:
+            if X.get_id() == tid:
+                return atom
+            if Y.get_id() == tid:
+                return -atom
+        return None
 
     def exp_const_base(self, q):
         """(exp(1/q), exp(-1/q)) with the linking axioms exp(1/q)^q = e for all bases in use."""
@@ -585,7 +606,7 @@ class SymCtx:
         key = ("trig", t.get_id())
         s, c = self.func("sin")(t), self.func("cos")(t)
         if key not in self.aux:
-            self.aux[key] = True
+            self.aux[key] = t   # remembered: arctan2's injectivity axiom is instantiated on every trig argument
             self.keep.append(t)
             self.add_hyp(s * s + c * c == 1)
         return s if which == "sin" else c
